@@ -25,8 +25,9 @@ read — the literal `adv ≥ limit` is false by design of the quarter-window ba
 `adv > 3/4·limit > 0`, and a read larger than the window is granted by `maybeAdjust`.
 -/
 import GrpcProofs.Lemmas.InFlow
+import GrpcProofs.Lemmas.InFlowConn
 namespace GrpcProofs.C04
-open GrpcModel.InFlow GrpcProofs.Lemmas.InFlow
+open GrpcModel.InFlow GrpcProofs.Lemmas.InFlow GrpcModel.InFlowConn GrpcProofs.Lemmas.InFlowConn
 
 /-- **Exact ledger**: along every legal history, as long as no frame was rejected, the window the
     peer holds is exactly `limit + delta − (pendingData + pendingUpdate)`, `pendingData` is exactly
@@ -195,6 +196,62 @@ theorem conn_window (l : Nat) (ops : List TOp) (hl0 : l ≤ 2147483647)
   · exact Or.inl hz
   · exact Or.inr (hB (by omega))
 
+/-! ### connection level: stream registration interleaved with BDP updates
+(`GrpcModel/Model/InFlowConn.lean`: `openS` = the stream gets its id and enters activeStreams with
+`inFlow{limit: t.initialWindowSize}`; `bdp n` = updateFlowControl raises `initialWindowSize`, the limit of
+every ACTIVE stream and, through SETTINGS, the peer's window of exactly those streams) -/
+
+/-- **Every open stream's ledger is exact at all times**, however stream registrations, per-stream
+    traffic and BDP updates interleave: the window the peer holds for it equals
+    `limit + delta − (pendingData + pendingUpdate)` and its limit is the connection's current
+    (= last advertised) initial window. -/
+theorem conn_streams_exact (l : Nat) (ops : List COp) (hl0 : l ≤ 2147483647)
+    (hl : clegalRun (Conn.init l) ops = true) :
+    ∀ e ∈ (crun (Conn.init l) ops).streams,
+      e.2.g.adv = (e.2.f.limit : Int) + e.2.f.delta - ((e.2.f.pd : Int) + e.2.f.pu)
+      ∧ e.2.f.limit = (crun (Conn.init l) ops).iws ∧ e.2.g.cfg = (crun (Conn.init l) ops).iws
+      ∧ 0 ≤ e.2.g.adv := by
+  intro e he
+  obtain ⟨h1, h2⟩ := (crun_inv _ ops (cinv_init l hl0) hl).each e he
+  exact ⟨h1.ledger, by rw [← h1.cfg]; exact h2, h2, h1.nonneg⟩
+
+/-- **A conforming peer is accepted on every stream of the connection**, in particular on a stream
+    that was registered after (or queued during) any number of BDP updates: a DATA frame is accepted
+    iff it fits the window the peer holds for that stream. -/
+theorem conn_accepts_iff_fits (l : Nat) (ops : List COp) (hl0 : l ≤ 2147483647)
+    (hl : clegalRun (Conn.init l) ops = true) (size : Nat) (pad : Option Nat) :
+    ∀ e ∈ (crun (Conn.init l) ops).streams,
+      e.2.g.legal false e.2.f.delta (.data size pad) = true →
+      ((step e.2 (.data size pad)).2 = .accepted ↔ (size : Int) ≤ e.2.g.adv)
+      ∧ ((step e.2 (.data size pad)).2 = .rejected ↔ (size : Int) > e.2.g.adv) := by
+  intro e he hleg
+  obtain ⟨h1, _⟩ := (crun_inv _ ops (cinv_init l hl0) hl).each e he
+  obtain ⟨a, b, _⟩ := step_data false e.2 size pad h1 hleg
+  exact ⟨a, b⟩
+
+/-- **A new stream starts with exactly the advertised window**: when a stream is registered — after
+    any history, BDP updates included — the limit it enforces and the window the peer holds for it are
+    both the connection's current initial window. -/
+theorem new_stream_window (l : Nat) (ops : List COp) (id : Nat) (hl0 : l ≤ 2147483647)
+    (hl : clegalRun (Conn.init l) (ops ++ [.openS id]) = true) :
+    ∀ e ∈ (crun (Conn.init l) (ops ++ [.openS id])).streams, e.1 = id →
+      e.2.f.limit = (crun (Conn.init l) ops).iws ∧ e.2.g.adv = ((crun (Conn.init l) ops).iws : Int)
+      ∧ e.2.f.pd = 0 ∧ e.2.f.pu = 0 ∧ e.2.f.delta = 0 := by
+  intro e he hid
+  rw [clegalRun_append] at hl
+  simp only [Bool.and_eq_true, clegalRun, clegal, Bool.not_eq_true'] at hl
+  have hno : (crun (Conn.init l) ops).has id = false := hl.2.1
+  rw [crun_append] at he
+  simp only [crun, cstep, hno, Bool.false_eq_true, ↓reduceIte, List.mem_append, List.mem_singleton] at he
+  rcases he with he | he
+  · exfalso
+    have : (crun (Conn.init l) ops).has id = true := by
+      simp only [Conn.has, List.any_eq_true]
+      exact ⟨e, he, by simp [hid]⟩
+    rw [hno] at this; cases this
+  · subst he
+    exact ⟨rfl, rfl, rfl, rfl, rfl⟩
+
 -- non-vacuity: a legal history with a message 4x the window, padded frames and a BDP update
 set_option maxRecDepth 100000
 example : legalRun true (State.init 65535)
@@ -204,5 +261,7 @@ example : (run (State.init 65535) [.req 5, .data 5 none, .read 5, .req 100, .dat
     = [.wu 0, .accepted, .wu 0, .wu 0, .accepted, .wu 0] := by decide
 example : (run (State.init 65535) [.data 65535 none, .data 1 none]).2 = [.accepted, .rejected] := by decide
 example : tlegalRun (TState.init 65535) [.data 16383, .data 1, .reset, .bdp 131070, .data 32767] = true := by decide
+example : clegalRun (Conn.init 65535)
+    [.openS 1, .sop 1 (.data 60000 none), .bdp 120000, .openS 3, .sop 3 (.data 100000 none), .closeS 1] = true := by decide
 
 end GrpcProofs.C04
